@@ -5,6 +5,7 @@ import (
 	"go/types"
 	"strings"
 
+	"golang.org/x/tools/go/packages"
 	"golang.org/x/tools/go/ssa"
 )
 
@@ -749,6 +750,38 @@ func (E *Engine) intrinsic(fr *Frame, st *State, name string, fn *ssa.Function, 
 			E.fail("Fresh needs a reference")
 		}
 		return tb.And(tb.Not(tb.Eq(r, E.null())), tb.Cmp(">", E.birth(r), E.clock(old)))
+	case "Closure0", "Closure1", "Closure2":
+		nm := E.strArg(args[0])
+		var pkg *packages.Package
+		for _, p := range E.P.pkgs {
+			if E.harness.Fn.Pkg != nil && p.PkgPath == E.harness.Fn.Pkg.Pkg.Path() {
+				pkg = p
+			}
+		}
+		target, err := E.P.FindFunc(pkg, nm)
+		if err != nil {
+			E.fail("%v", err)
+		}
+		if len(target.FreeVars) != len(args)-1 {
+			var names []string
+			for _, fv := range target.FreeVars {
+				names = append(names, fv.Name())
+			}
+			E.fail("%s captures %d variables (%s), %d given", nm, len(target.FreeVars), strings.Join(names, ","), len(args)-1)
+		}
+		var bind []Val
+		for i, fv := range target.FreeVars {
+			// captured variables are cells: allocate one holding the given value
+			el := fv.Type().(*types.Pointer).Elem()
+			cell := E.newRef(st, "cap$"+fv.Name(), fr.spec)
+			v, ok := args[i+1].(*Term)
+			if !ok {
+				E.fail("%s: captured value %d is not a term", nm, i)
+			}
+			E.storeObj(st, cell, el, v, nil)
+			bind = append(bind, cell)
+		}
+		return &Closure{fn: target, bind: bind}
 	case "Snapshot":
 		E.snapCount++
 		E.snaps[E.snapCount] = st.clone()
